@@ -287,7 +287,8 @@ PROPS = {
         "level": "exploration",
         "technique": "runtime monitoring: differential oracle (same seeded run in a clean and in a "
                      "polluted directory under the virtual clock) + before/after snapshot of the "
-                     "foreign files (bytes, inode, mtime, mode, existence)",
+                     "foreign files (bytes, inode, mtime, mode, existence) + offline check of strace "
+                     "logs of child runs (no successful mutating system call names a foreign path)",
         "level_text": "Held on the executions explored: for 14 classes of near-miss names derived "
                       "from the family language (each verified foreign by the independent parser), "
                       "all namings, cleanup strategies incl. compression, histories with rotations "
@@ -466,7 +467,9 @@ PROPS = {
                      "Direct-mode history and is terminated (_exit, no unwinding, no flush) "
                      "immediately before the n-th file-system effect (hook points at write, rename, "
                      "create/open, symlink replace, each cleanup removal, gz create/open/copy/finish/"
-                     "remove) and by SIGKILL at random instants; acknowledged ids vs. files; then a "
+                     "remove) and by SIGKILL at random instants; independently of the hooks, by SIGKILL "
+                     "delivered by strace at the entry of the n-th rename/unlink/symlink/openat/write "
+                     "that names the log directory; acknowledged ids vs. files; then a "
                      "second child restarts a logger on the same directory",
         "level_text": "Held on the executions explored: for every crash point tried, every record "
                       "whose log call had returned (ack written after the call) is in the files "
@@ -499,7 +502,9 @@ PROPS = {
                      "injected io::Error returned instead of the call (single failures and bursts of "
                      "2-5), per-call attribution of injected faults and error-channel lines; real "
                      "faults without hooks: rotation target blocked by a non-empty directory, "
-                     "RLIMIT_FSIZE (EFBIG) in a child",
+                     "RLIMIT_FSIZE (EFBIG) in a child, and errno injection by strace into the n-th "
+                     "write/openat/rename/unlink on the log directory of a child history, with the "
+                     "strace log as the event record that attributes each failure to an operation",
         "level_text": "Held on the executions explored: every log call returned (no panic); a record "
                       "is missing only if an injected error hit its own write or the (re-)"
                       "initialisation in its own call, and each such call left at least one ERRCODE "
@@ -530,23 +535,23 @@ PROPS = {
 
 # scenario families added while the checks were strengthened against seeded changes (DESIGN 0.2, 0.5)
 RULE_ADDENDA = {
-    "C01": "per-case equivalent builder call sequences; reopen_output() with the file in place is one of the operations",
+    "C01": "per-case equivalent builder call sequences; reopen_output() with the file in place is one of the operations; an eighth of the virtual-clock cases sets the clock back between operations; those are judged as a multiset of lines (names are not chronological then)",
     "C02": "lists with several addressees in every order and with _Default, each preceded by an enabled() query; a text-filter-only run-time change",
     "C03": "every 4th file case uses a format that refuses sprinkled records; every 16th case is a file + stderr duplicate whose format refuses",
-    "C04": "a third of the in-process cases route records to an additional file writer; endings include two concurrent shutdowns; 1 of 8 cases is flush() while 1-4 other threads log",
+    "C04": "a third of the in-process cases route records to an additional file writer; endings include two concurrent shutdowns; 1 of 8 cases is flush() while 1-4 other threads log; every 16th case: 40 (thorough 120) small loggers whose only two handle clones are dropped by two threads behind a spin barrier, file read while the logger object is alive; ending ConcurrentDropLast in the ordinary cases",
     "C06": "every 16th case is a DST child (history in one pass of the repeated hour vs. the same history a week later, 4 zones, optional file from the skipped hour, listing against the directory); empty discriminant among the name parts",
     "C07": "background-cleanup cases hold the logging thread back between rename and writer swap; judged only now and then; every 48th case (thorough: half the cases of shards 8-15) is a controlled-schedule configuration (shape prefix sched|, non-trivial iff a step of one thread ran inside the other's rotation / work list)",
     "C08": "reopen_output() with the file in place is one of the operations; recursive logging (a record whose Display argument logs another record through the same logger) is one of the operations",
     "C09": "reopen_output() with the file in place is one of the operations; explicit rotations whose new file cannot be opened (fault at fs point open; the file keeps its start time and name)",
-    "C10": "memory buffer as primary output with limits around the line lengths; recursion nesting depth 2-4; every 32nd case is a DST child",
+    "C10": "memory buffer as primary output with limits around the line lengths; recursion nesting depth 2-4; every 32nd case is a DST child; a quarter of the file-spec cases plants FIFOs, dangling links and links to FIFOs under the names of old rotated files",
     "C11": "histories contain reopen_output() with the file in place; every 2nd case adds kill points that do not depend on the hooks: the history runs under strace, which delivers SIGKILL at the entry of the n-th rename/unlink/symlink/openat/write naming the log directory (taken from a traced run; sampled, thorough: all when at most 80)",
     "C12": "two thirds of the cases register an additional writer of low ceiling; every 20th case has the specfile watcher as one more controlled participant",
-    "C13": "lists with repeated names; an enabled() query per routed record",
-    "C14": "near-miss classes include <fixed>_<infix>.gz without the suffix and sub-directories named like a family file",
-    "C15": "parameterless write-mode variants take part",
-    "C16": "per-case equivalent builder call sequences; try_from paths also with rotation + listing; every 32nd case is a DST child",
+    "C13": "lists with repeated names; an enabled() query per routed record; a third of the specifications carries a text filter (it concerns the default channel only), messages hit and miss it",
+    "C14": "near-miss classes include <fixed>_<infix>.gz without the suffix and sub-directories named like a family file; class suffix-overlap (fixed name part ends like the beginning of .<suffix>); every 32nd case runs the polluted history in a child under strace (-f -y, %file + fd-based calls) and checks offline that no successful mutating system call names a foreign path (shape suffix |strace; counters strace_*)",
+    "C15": "parameterless write-mode variants take part; reopen_output() with the file in place is one of the operations of the record histories",
+    "C16": "per-case equivalent builder call sequences; try_from paths also with rotation + listing; every 32nd case is a DST child; in half of the symlink cases the configured link exists before the logger starts (dangling, or pointing elsewhere)",
     "C17": "a tenth of the strings is long; every 16th string also through the RUST_LOG entry points; blank-part vs empty-part relation for inputs the docs leave open",
-    "C18": "every 8th case: primary file/stderr/stdout + an additional file writer, one reopen_output for all, immediate reads of unbuffered files; every 16th case: reopen_output in a loop while 2-4 threads log through rotations",
+    "C18": "every 8th case: primary file/stderr/stdout + an additional file writer, one reopen_output for all, immediate reads of unbuffered files; every 16th case: reopen_output in a loop while 2-4 threads log through rotations; a third of the resets of a non-rotating family keeps the same file specification and only switches rotation on",
     "C19": "a bystander file writer in every fault history; a third of the cases with the background cleanup thread; partition under cleanup faults and cleanup limits after recovery are judged; real faults: blocked rotation target, rotated name longer than NAME_MAX, controlled failed-open-then-background-cleanup order, RLIMIT_FSIZE; every 10th case: failures of the system calls themselves (strace -e inject=<call>:error=<errno>:when=<n>[..m] on the n-th write/openat/rename/unlink naming the log directory of a child history; the strace log attributes each failure to the operation window announced in the ack file)",
     "C20": "shards 4-7 and 12-15 run with UTC forced; children configure formats explicitly, through AdaptiveFormat, or not at all",
 }
